@@ -29,6 +29,7 @@ VERBOSE = "MAGEFILE_VERBOSE"
 VERBOSE_VALUES = ["1", "1", "true", "0", ""]
 PLAIN = [w for w in WORDS if "$" not in w]
 SLOW_REF = "${Z}"                # Z is never set: expands to nothing, slowly when repeated
+PAR_BOUND_MS = 15000             # how long all children of one concurrent case may take to be alive together
 BAKED_COUNTS = [1, 2, 3, 4, 8, 16, 17, 19, 21, 33]
 NILS = {"nil": True, "id": 0, "off": 0, "len": 0, "cap": 0}
 
@@ -140,7 +141,14 @@ def gen_par(rng, reps):
         extras.append({"nil": False, "id": len(arrays) - 1, "off": 0, "len": rng.choice([1, 1, 2]), "cap": 2})
     cls = [{"kind": rng.choice(["run", "out", "out"]), "cmd": rng.choice(CMDS), "baked": baked}]
     ops = [{"op": "setenv", "k": rng.choice(VARS + [VERBOSE]), "v": rng.choice(VALUES)} for _ in range(rng.choice([0, 0, 1, 2]))]
-    ops.append({"op": "par", "c": 0, "extras": extras, "reps": reps})
+    par = {"op": "par", "c": 0, "extras": extras, "reps": reps, "bound_ms": PAR_BOUND_MS}
+    if rng.random() < 0.25:
+        # the reference behaviour: the same calls made directly, sh.Output/sh.Run(cmd, baked+extra...)
+        par.update(parfn=rng.choice(["Output", "Run"]), cmd=cls[0]["cmd"])
+        for g, e in enumerate(extras):
+            arrays[e["id"]] = cells[:nb] + arrays[e["id"]]
+            extras[g] = dict(e, len=nb + e["len"], cap=nb + 2)
+    ops.append(par)
     return {"kind": "par", "env": gen_env(rng), "arrays": arrays, "closures": cls, "ops": ops,
             "scheds": [[rng.random() < 0.5 for _ in range(rng.choice([0, 3, 8, 20, 40, 200]))] for _ in range(reps)]}
 
@@ -214,6 +222,23 @@ def par_extras(o):
     return o.get("extras") or [o["a"], o["b"]]
 
 
+def par_expected(case, env, o):
+    """[(argv, text)] per concurrent call"""
+    if o.get("parfn"):
+        return [expected_call(case, env, {"op": "direct", "fn": o["parfn"], "emap": None, "cmd": o["cmd"], "args": x}) for x in par_extras(o)]
+    return [expected_closure(case, env, o["c"], x) for x in par_extras(o)]
+
+
+def par_what(case, o):
+    if o.get("parfn"):
+        return "sh.%s(%r, ...)" % (o["parfn"], o["cmd"])
+    return "closure %d (%s)" % (o["c"], "OutCmd" if case["closures"][o["c"]]["kind"] == "out" else "RunCmd")
+
+
+def par_nbaked(case, o):
+    return 0 if o.get("parfn") else case["closures"][o["c"]]["baked"]["len"]
+
+
 def short(x, n=700):
     """repr with the long slow-expansion runs abbreviated"""
     r = re.sub(r"(\$\{Z\}){20,}", lambda m: "${Z}*%d" % (len(m.group(0)) // len(SLOW_REF)), repr(x))
@@ -249,12 +274,16 @@ def oracle(case, ans):
             if ob["out"] != out:
                 bad.append("op %d: %s handed back %r, expected %r" % (i, what, ob["out"], out))
         elif o["op"] == "par":
-            exp = [expected_closure(case, env, o["c"], x) for x in par_extras(o)]
+            exp = par_expected(case, env, o)
             for ri, rp in enumerate(ob.get("reps") or []):
+                if rp.get("stalled"):
+                    bad.append("op %d rep %d: %d concurrent calls of %s: only %d of them had their child alive at the same time; after %d ms %d call(s) had neither started a child "
+                               "nor returned while the other children were still running (held at the gate): a call did not start while another call was in flight" % (
+                                   i, ri, len(exp), par_what(case, o), rp["alive"], rp["waited_ms"], len(exp) - rp["alive"] - rp["returned_before_gate"]))
                 if sorted(rp["lines"]) != sorted(e[0] for e in exp):
-                    nb = case["closures"][o["c"]]["baked"]["len"]
-                    bad.append("op %d rep %d: %d concurrent calls of closure %d (%d baked-in arguments): after cmd and the baked-in arguments the children received %s, the calls passed %s%s" % (
-                        i, ri, len(exp), o["c"], nb, short(sorted(l[1 + nb:] for l in rp["lines"]), 400), short(sorted(e[0][1 + nb:] for e in exp), 400),
+                    nb = par_nbaked(case, o)
+                    bad.append("op %d rep %d: %d concurrent calls of %s (%d baked-in arguments): after cmd and the baked-in arguments the children received %s, the calls passed %s%s" % (
+                        i, ri, len(exp), par_what(case, o), nb, short(sorted(l[1 + nb:] for l in rp["lines"]), 400), short(sorted(e[0][1 + nb:] for e in exp), 400),
                         "" if sorted(l[:1 + nb] for l in rp["lines"]) == sorted(e[0][:1 + nb] for e in exp) else "; cmd/baked part differs too: %s" % short(rp["lines"], 500)))
                 for g, e in enumerate(exp):
                     if rp["outs"][g] != e[1]:
@@ -333,7 +362,11 @@ def par_terms(case, ans):
             env[o["k"]] = o["v"]
             continue
         extras = par_extras(o)
-        exp = [expected_closure(case, dict(env), o["c"], x)[0] for x in extras]
+        exp = [e[0] for e in par_expected(case, dict(env), o)]
+        if o.get("parfn"):
+            t_call = lambda x: "(CallDirect %s [] %s %s)" % (FNSEL[o["parfn"]], coq_str(o["cmd"]), t_slice(x))
+        else:
+            t_call = lambda x: "(CallClosure %d %s)" % (o["c"], t_slice(x))
         pairs = [(g, g + 1) for g in range(0, len(extras) - 1, 2)]
         if len(extras) % 2:
             pairs.append((len(extras) - 1, 0))
@@ -356,7 +389,7 @@ def par_terms(case, ans):
                 out.append("{| cc_env := %s; cc_heap := %s; cc_cls := %s; cc_a := %s; cc_b := %s; cc_sched := %s; cc_argv_a := %s; cc_argv_b := %s; "
                            "cc_out_a := %s; cc_out_b := %s; cc_snap := %s |}" % (
                                t_env(env), t_heap(case["arrays"]), t_cls(case["closures"]),
-                               "(CallClosure %d %s)" % (o["c"], t_slice(extras[ga])), "(CallClosure %d %s)" % (o["c"], t_slice(extras[gb])),
+                               t_call(extras[ga]), t_call(extras[gb]),
                                coq_list([coq_bool(x) for x in case["scheds"][ri % len(case["scheds"])]]),
                                t_strs(mine[ga]), t_strs(mine[gb]), t_optstr(rp["outs"][ga]), t_optstr(rp["outs"][gb]), t_heap(rp["snap"])))
     return out
@@ -455,7 +488,14 @@ def run(ctx):
     feat = {"call_without_extra": 0, "call_after_setenv": 0, "repeated_call_of_one_closure": 0, "baked_with_spare_capacity": 0,
             "extra_aliases_baked_array": 0, "offset_slices": 0, "closures_sharing_an_array": 0, "dollar_in_baked": 0, "env_map_overrides": 0,
             "par_repetitions": 0, "calls_in_verbose_mode": 0, "verbose_direct_calls_without_dollar": 0, "concurrent_slow_expansion_cases": 0}
-    par_baked, par_goroutines = {}, {}
+    par_baked, par_goroutines, par_targets = {}, {}, {}
+    overlap = {"repetitions": 0, "all_children_alive_together": 0, "max_wait_ms": 0}
+    for c, a in zip(cases, answers):
+        for ob in (a.get("obs") or []):
+            for rp in ob.get("reps") or []:
+                overlap["repetitions"] += 1
+                overlap["all_children_alive_together"] += (not rp.get("stalled")) and rp["alive"] == len(rp["outs"])
+                overlap["max_wait_ms"] = max(overlap["max_wait_ms"], rp["waited_ms"])
     for c, a in zip(cases, answers):
         h = case_hash(c["_abstract"])
         ncalls = 0
@@ -490,6 +530,8 @@ def run(ctx):
                 feat["verbose_direct_calls_without_dollar"] += is_verbose and len(cs) > 0 and not any("$" in x for x in cs)
             if o["op"] == "par":
                 feat["par_repetitions"] += o["reps"]
+                tgt = o.get("parfn") or ("OutCmd" if c["closures"][o["c"]]["kind"] == "out" else "RunCmd")
+                par_targets[tgt] = par_targets.get(tgt, 0) + 1
                 nb = c["closures"][o["c"]]["baked"]["len"]
                 par_baked[nb] = par_baked.get(nb, 0) + 1
                 ng = len(par_extras(o))
@@ -509,7 +551,8 @@ def run(ctx):
                    "1-10 operations setenv (V..Y and MAGEFILE_VERBOSE unset/0/1/true) | closure call (extra nil or any slice, may alias the baked array) | the seven direct functions with env maps; "
                    "40% of the arrays hold no $ reference at all; "
                    "concurrent cases: 2-6 goroutines released together on one closure with 1,2,3,4,8,16,17,19,21 or 33 baked-in arguments (caller slice with 0-2 spare cells), "
-                   "1-2 extra arguments each, baked-in arguments that are slow to expand (thousands of ${Z}) so the calls overlap inside Exec, gate-held children; "
+                   "1-2 extra arguments each, baked-in arguments that are slow to expand (thousands of ${Z}) so the calls overlap inside Exec, gate-held children, the gate opens only when ALL children of the case are alive together (overlap is an observable, bound 15 s), "
+                   "a quarter of the concurrent cases call sh.Output/sh.Run directly (reference behaviour); "
                    "each pair of calls of each repetition is one model evaluation; "
                    "distinct by hash of the abstract case; non-trivial = concurrent case, or >=2 calls and a $ reference in some cell")
     cov["histories"] = len(hist)
@@ -517,6 +560,8 @@ def run(ctx):
     cov["operations"] = kinds
     cov["by_function"] = byfn
     cov["concurrent_baked_counts"] = {str(k): v for k, v in sorted(par_baked.items())}
+    cov["concurrent_targets"] = par_targets
+    cov["concurrent_overlap"] = overlap
     cov["concurrent_goroutines"] = {str(k): v for k, v in sorted(par_goroutines.items())}
     cov["closure_cmd_forms"] = cmdforms
     cov["features"] = {k: int(v) for k, v in feat.items()}
